@@ -1704,11 +1704,14 @@ func lemmaSynonymCodeRoundTrip(synonymID, docID uint32) {
 //@ ensures muHeld(sc.m) == 0
 //@ end
 
-//@ func (*synonymIndexCache).createAndCacheLOCKED returns (fst, m, err)
+//@ func (*synonymIndexCache).createAndCacheLOCKED returns (f, m, e)
 //@ thin
 //@ tags [C11,C12]
 //@ requires sc != nil && muHeld(sc.m) == 2
 //@ ensures muHeld(sc.m) == 2
+// the loader rejects a thesaurus only for an empty or unreadable FST or an empty synonym table; every
+// (id, length, bytes) entry the writer can emit - including a zero length, the empty synonym - is accepted
+//@ local ensures e != nil ==> vellumLen == 0 || read <= 0 || err != nil || numSyns == 0 [C12]
 //@ end
 
 //@ func (*synonymIndexCache).insertLOCKED
